@@ -107,9 +107,10 @@ func (lp *Listpack) Next() []byte {
 		negmax = math.MaxUint64 // uint64_max
 		lp.p += lpEncodeBacklen(1 + 8)
 	} else {
-		uval = 12345678900000000 + uint64(fireByte)
-		negstart = math.MaxUint64
-		negmax = 0
+		// 0xFF is the terminator (the caller asks for more elements than the listpack has) and 0xF5-0xFE
+		// encode nothing : damaged data. The position cannot advance here, so a loop over a damaged
+		// count would never end.
+		panic(fmt.Errorf("list pack, no element at %d : %x", inx, fireByte))
 	}
 
 	/* We reach this code path only for integer encodings.
